@@ -53,9 +53,23 @@ pub enum Phase {
     WebSocket,
     TcpPipe,
     H2Streams,
+    /// upload with `Expect: 100-continue`: the backend's `100 Continue` is relayed after the stop
+    Expect100,
+    /// the backend answers `103 Early Hints` after the stop, the final response a little later
+    EarlyHints,
 }
 
-pub const PHASES: [Phase; 7] = [Phase::BeforeHeaders, Phase::MidDownload, Phase::MidUpload, Phase::KeepAlive, Phase::WebSocket, Phase::TcpPipe, Phase::H2Streams];
+pub const PHASES: [Phase; 9] = [
+    Phase::BeforeHeaders,
+    Phase::MidDownload,
+    Phase::MidUpload,
+    Phase::KeepAlive,
+    Phase::WebSocket,
+    Phase::TcpPipe,
+    Phase::H2Streams,
+    Phase::Expect100,
+    Phase::EarlyHints,
+];
 
 impl Phase {
     pub fn name(self) -> &'static str {
@@ -67,7 +81,13 @@ impl Phase {
             Phase::WebSocket => "websocket",
             Phase::TcpPipe => "tcp_pipe",
             Phase::H2Streams => "h2_streams",
+            Phase::Expect100 => "expect_100_continue",
+            Phase::EarlyHints => "early_hints_103",
         }
+    }
+    /// tunnels and relays are not requests: what happens to them at a soft stop is observed, not judged
+    pub fn is_request(self) -> bool {
+        !matches!(self, Phase::WebSocket | Phase::TcpPipe)
     }
     pub fn needs(self) -> &'static [Kind] {
         match self {
@@ -236,6 +256,13 @@ pub fn http_backend_handler(sh: Arc<Shared>, tag: &'static str) -> impl Fn(TcpSt
                             e.body_ok = true;
                             e.tag = tag;
                         }
+                        if let Some(('e', _, _, gate)) = cur {
+                            // the client waits for the interim response before it sends the body
+                            sh.wait_gate(gate, Duration::from_secs(40));
+                            if s.write_all(b"HTTP/1.1 100 Continue\r\n\r\n").is_err() {
+                                return;
+                            }
+                        }
                     }
                     h1::Event::Body(b) => {
                         if let Some((_, id, _, _)) = cur {
@@ -263,6 +290,13 @@ pub fn http_backend_handler(sh: Arc<Shared>, tag: &'static str) -> impl Fn(TcpSt
                             'h' => {
                                 sh.wait_gate(gate, Duration::from_secs(40));
                                 s.write_all(&head).and_then(|_| s.write_all(&body))
+                            }
+                            'i' => {
+                                // an interim response relayed after the stop, the final one a little later
+                                sh.wait_gate(gate, Duration::from_secs(40));
+                                let r = s.write_all(b"HTTP/1.1 103 Early Hints\r\nLink: </style.css>; rel=preload; as=style\r\n\r\n");
+                                std::thread::sleep(Duration::from_millis(30 + id % 120));
+                                r.and_then(|_| s.write_all(&head)).and_then(|_| s.write_all(&body))
                             }
                             'm' => {
                                 let half = body.len() / 2;
@@ -409,6 +443,8 @@ pub fn get_request(k: char, id: u64, len: usize, gate: usize, extra: &str) -> Ve
 pub struct Resp {
     /// raw bytes received for this response
     pub bytes: usize,
+    /// interim (1xx) responses seen before the final one
+    pub interim: Vec<u16>,
     pub status: Option<u16>,
     pub tag: Option<String>,
     pub body_len: usize,
@@ -424,13 +460,20 @@ impl Resp {
         self.complete && self.status == Some(200) && self.body_ok && self.body_len == len
     }
     pub fn json(&self) -> Value {
-        json!({"bytes_received": self.bytes, "status": self.status, "tag": self.tag, "body_bytes": self.body_len, "body_matches_keystream": self.body_ok,
+        json!({"bytes_received": self.bytes, "interim_responses": self.interim, "status": self.status, "tag": self.tag, "body_bytes": self.body_len, "body_matches_keystream": self.body_ok,
             "complete": self.complete, "ended": self.ended, "ended_at_us": self.end_us})
     }
 }
 
 /// read one response (body = keystream(id)); `progress` is called after every read that delivered bytes
-pub fn read_response(sh: &Shared, c: &mut Conn, p: &mut h1::Parser, id: u64, conn_us: u64, deadline: Instant, mut progress: impl FnMut(&Resp)) -> Resp {
+pub fn read_response(sh: &Shared, c: &mut Conn, p: &mut h1::Parser, id: u64, conn_us: u64, deadline: Instant, progress: impl FnMut(&Resp)) -> Resp {
+    read_response_until(sh, c, p, id, conn_us, deadline, false, progress)
+}
+
+/// like `read_response`; with `stop_at_interim` it returns as soon as one interim (1xx) response is complete
+#[allow(clippy::too_many_arguments)]
+pub fn read_response_until(sh: &Shared, c: &mut Conn, p: &mut h1::Parser, id: u64, conn_us: u64, deadline: Instant, stop_at_interim: bool, mut progress: impl FnMut(&Resp)) -> Resp {
+    let mut in_interim = false;
     let mut r = Resp { body_ok: true, ..Default::default() };
     let mut buf = vec![0u8; 32 * 1024];
     let mut pending: Vec<u8> = Vec::new();
@@ -484,14 +527,25 @@ pub fn read_response(sh: &Shared, c: &mut Conn, p: &mut h1::Parser, id: u64, con
         for e in events {
             match e {
                 h1::Event::Head(h) => {
-                    r.status = h.status();
-                    r.tag = h.header_str("x-tag");
+                    if h.status().is_some_and(|c| (100..200).contains(&c) && c != 101) {
+                        r.interim.push(h.status().unwrap_or(0));
+                        in_interim = true;
+                    } else {
+                        r.status = h.status();
+                        r.tag = h.header_str("x-tag");
+                    }
                 }
                 h1::Event::Body(b) => {
                     if keystream_mismatch(id, r.body_len as u64, &b).is_some() {
                         r.body_ok = false;
                     }
                     r.body_len += b.len();
+                }
+                h1::Event::End(_) if in_interim => {
+                    in_interim = false;
+                    if stop_at_interim {
+                        done = true;
+                    }
                 }
                 h1::Event::End(_) => {
                     r.complete = true;
@@ -572,7 +626,7 @@ fn classify_incomplete(r: &Resp) -> Fate {
 }
 
 /// watchdog for everything that happens after the gate opened
-const AFTER_RELEASE: Duration = Duration::from_secs(15);
+const AFTER_RELEASE: Duration = Duration::from_secs(10);
 const PARK_MAX: Duration = Duration::from_secs(40);
 
 pub fn run_inflight(sh: Arc<Shared>, plan: InflightPlan, kind: Kind, addr: SocketAddr, parked: Arc<ParkFlag>) -> InflightResult {
@@ -664,6 +718,66 @@ pub fn run_inflight(sh: Arc<Shared>, plan: InflightPlan, kind: Kind, addr: Socke
             } else {
                 classify_incomplete(&r)
             };
+            finish(&sh, &plan, vec![id], Some(t), fate, r.tag.clone(), r.json())
+        }
+        Phase::Expect100 => {
+            let body = keystream(id ^ UP_SALT, 0, plan.up_len);
+            let head = format!("POST /e/{id}/{}/{} HTTP/1.1\r\nHost: {HOST}\r\nContent-Length: {}\r\nExpect: 100-continue\r\n\r\n", plan.resp_len, plan.gate, plan.up_len);
+            if let Err(e) = c.write_all(head.as_bytes()) {
+                return finish(&sh, &plan, vec![id], None, Fate::Setup(format!("write: {e}")), None, Value::Null);
+            }
+            // parked = the backend holds the request head and has not yet said 100 Continue
+            let start = Instant::now();
+            while !sh.seen_of(id).head {
+                if start.elapsed() > Duration::from_secs(8) {
+                    return finish(&sh, &plan, vec![id], None, Fate::Setup("backend never saw the request head".into()), None, Value::Null);
+                }
+                std::thread::sleep(Duration::from_millis(1));
+            }
+            let t = park(&sh);
+            sh.wait_gate(plan.gate, PARK_MAX);
+            let r0 = read_response_until(&sh, &mut c, &mut p, id, 0, Instant::now() + AFTER_RELEASE, true, |_| {});
+            if r0.interim.is_empty() || r0.status.is_some() {
+                let fate = if r0.status.is_some() {
+                    Fate::Cut(format!("final status {:?} instead of the backend's 100 Continue", r0.status))
+                } else if r0.ended == "timeout" {
+                    Fate::Hung(format!("no 100 Continue before the watchdog ({} bytes received)", r0.bytes))
+                } else {
+                    Fate::Cut(format!("{} before the 100 Continue arrived ({} bytes received)", r0.ended, r0.bytes))
+                };
+                return finish(&sh, &plan, vec![id], Some(t), fate, None, r0.json());
+            }
+            if let Err(e) = c.write_all(&body) {
+                return finish(&sh, &plan, vec![id], Some(t), Fate::Cut(format!("write of the body after 100 Continue failed: {e}")), None, r0.json());
+            }
+            let mut r = read_response(&sh, &mut c, &mut p, id, 0, Instant::now() + AFTER_RELEASE, |_| {});
+            r.interim.splice(0..0, r0.interim.iter().copied());
+            r.bytes += r0.bytes;
+            let s = sh.seen_of(id);
+            let fate = if r.good(plan.resp_len) && s.body_ok && s.body_bytes == plan.up_len {
+                Fate::Completed
+            } else if r.good(plan.resp_len) {
+                Fate::Corrupt(format!("backend received {} body bytes (keystream ok: {}) of {}", s.body_bytes, s.body_ok, plan.up_len))
+            } else {
+                classify_incomplete(&r)
+            };
+            finish(&sh, &plan, vec![id], Some(t), fate, r.tag.clone(), r.json())
+        }
+        Phase::EarlyHints => {
+            if let Err(e) = c.write_all(&get_request('i', id, plan.resp_len, plan.gate, "")) {
+                return finish(&sh, &plan, vec![id], None, Fate::Setup(format!("write: {e}")), None, Value::Null);
+            }
+            let start = Instant::now();
+            while !sh.seen_of(id).complete {
+                if start.elapsed() > Duration::from_secs(8) {
+                    return finish(&sh, &plan, vec![id], None, Fate::Setup("backend never saw the request".into()), None, Value::Null);
+                }
+                std::thread::sleep(Duration::from_millis(1));
+            }
+            let t = park(&sh);
+            sh.wait_gate(plan.gate, PARK_MAX);
+            let r = read_response(&sh, &mut c, &mut p, id, 0, Instant::now() + AFTER_RELEASE, |_| {});
+            let fate = if r.good(plan.resp_len) { Fate::Completed } else { classify_incomplete(&r) };
             finish(&sh, &plan, vec![id], Some(t), fate, r.tag.clone(), r.json())
         }
         _ => {
